@@ -1,6 +1,7 @@
 package server
 
 import (
+	"errors"
 	"sync"
 
 	"github.com/cbeuw/Cloak/internal/server/usermanager"
@@ -19,7 +20,12 @@ type ActiveUser struct {
 
 	sessionsM sync.RWMutex
 	sessions  map[uint32]*mux.Session
+	// terminated is set (under sessionsM) once the panel has terminated this record;
+	// no session may be created on it any more
+	terminated bool
 }
+
+var ErrUserTerminated = errors.New("active user has been terminated")
 
 // CloseSession closes a session and removes its reference from the user
 func (u *ActiveUser) CloseSession(sessionID uint32, reason string) {
@@ -46,6 +52,10 @@ func (u *ActiveUser) GetSession(sessionID uint32, config mux.SessionConfig) (ses
 	if sesh = u.sessions[sessionID]; sesh != nil {
 		return sesh, true, nil
 	} else {
+		if u.terminated {
+			// the last session of this record was closed after the caller looked the user up
+			return nil, false, ErrUserTerminated
+		}
 		if !u.bypass {
 			ainfo := usermanager.AuthorisationInfo{NumExistingSessions: len(u.sessions)}
 			err := u.panel.Manager.AuthoriseNewSession(u.arrUID[:], ainfo)
@@ -68,6 +78,19 @@ func (u *ActiveUser) closeAllSessions(reason string) {
 		sesh.Close()
 		delete(u.sessions, sessionID)
 	}
+	u.sessionsM.Unlock()
+}
+
+// terminate closes all sessions of this active user and bars it from getting new ones:
+// the panel is about to forget this record
+func (u *ActiveUser) terminate(reason string) {
+	u.sessionsM.Lock()
+	for sessionID, sesh := range u.sessions {
+		sesh.SetTerminalMsg(reason)
+		sesh.Close()
+		delete(u.sessions, sessionID)
+	}
+	u.terminated = true
 	u.sessionsM.Unlock()
 }
 
